@@ -17,8 +17,8 @@ CLAIMED['C02'] = dict(
     text='Theorem C02_exact over ALL integer lists of any length and any integers: the decoder either returns a valid message '
          'whose encoding is exactly the input or raises ValueError, never anything else. Tied to /repo by the table lemmas and a '
          'correspondence run that is exhaustive over the 16 843 009 byte strings of length <= 3 in the thorough tier.',
-    note='Coq kernel; no axioms; hand-written model of decode_message tied by correspondence; the TypeError clause for '
-         'non-integer items is tested on the implementation only (not a theorem).',
+    note='Coq kernel; no axioms; hand-written model of decode_message tied by correspondence; the clause about items that are not integers is theorem C02_types over a typed item model (ints, bools, floats, strings, None, other), '
+         'tied by its own correspondence; Fractions / complex numbers are exercised on the implementation only.',
     technique='Coq proof (case analysis + finite sweeps by vm_compute) + exhaustive model/implementation correspondence',
     design='5/C02')
 CLAIMED['C04'] = dict(
